@@ -154,8 +154,9 @@ def run(ck, fb, fbd):
     compile_witness(ck, "C08.witness", "c08_handles.cc", extra_flags=("-DVERIF_RANGE=%d" % rng,), compilers=comps, steps=2000000000)
     mirror(ck, fb)
     orient(ck, fb)
-    from .c11 import face_chain_rule
+    from .c11 import face_chain_rule, dedup_rule
     face_chain_rule(ck, fb)
+    dedup_rule(ck, fb)
 
 
 def algebra(ck, fb):
